@@ -1,0 +1,410 @@
+//! Verification hooks.
+//!
+//! This whole module only exists when the crate is built with `--cfg bmwill_anemo_verif`. It
+//! gives an external conformance harness three things:
+//!
+//! * `emit`: a sink for events logged at the linearization points of the connection manager,
+//!   the active-peer set, the request handlers and the RPC client path;
+//! * `point` / `block_point`: schedule gates at which a controller may hold a task;
+//! * thin public wrappers around crate-private decision functions (verifiers, wire codecs,
+//!   tie-breaking, the active-peer set, the timeout layers) so they can be driven directly.
+//!
+//! Without a sink / controller installed every hook is a no-op.
+
+use crate::{types::DisconnectReason, ConnectionOrigin, PeerId};
+use futures::future::BoxFuture;
+use serde_json::Value;
+use std::sync::{
+    atomic::{AtomicU64, Ordering},
+    Arc, RwLock,
+};
+
+pub use serde_json::json;
+
+type Sink = Arc<dyn Fn(&'static str, Value) + Send + Sync>;
+type Gate = Arc<dyn Fn(&'static str, &Value) -> Option<BoxFuture<'static, ()>> + Send + Sync>;
+type BlockGate = Arc<dyn Fn(&'static str, &Value) + Send + Sync>;
+type SocketFactory =
+    Arc<dyn Fn(std::net::SocketAddr) -> Arc<dyn quinn::AsyncUdpSocket> + Send + Sync>;
+
+static SINK: RwLock<Option<Sink>> = RwLock::new(None);
+static GATE: RwLock<Option<Gate>> = RwLock::new(None);
+static BLOCK_GATE: RwLock<Option<BlockGate>> = RwLock::new(None);
+static SOCKET_FACTORY: RwLock<Option<SocketFactory>> = RwLock::new(None);
+static JITTER_MS: RwLock<Option<u64>> = RwLock::new(None);
+static EPOCH: RwLock<Option<std::time::Instant>> = RwLock::new(None);
+static NEXT_ID: AtomicU64 = AtomicU64::new(1);
+
+pub fn set_sink(sink: Option<Sink>) {
+    *SINK.write().unwrap() = sink;
+}
+
+pub fn set_gate(gate: Option<Gate>) {
+    *GATE.write().unwrap() = gate;
+}
+
+pub fn set_block_gate(gate: Option<BlockGate>) {
+    *BLOCK_GATE.write().unwrap() = gate;
+}
+
+pub fn set_socket_factory(factory: Option<SocketFactory>) {
+    *SOCKET_FACTORY.write().unwrap() = factory;
+}
+
+pub fn set_jitter_ms(jitter: Option<u64>) {
+    *JITTER_MS.write().unwrap() = jitter;
+}
+
+pub fn set_epoch(epoch: Option<std::time::Instant>) {
+    *EPOCH.write().unwrap() = epoch;
+}
+
+pub(crate) fn next_id() -> u64 {
+    NEXT_ID.fetch_add(1, Ordering::Relaxed)
+}
+
+/// Log one event. No-op without a sink.
+pub(crate) fn emit(ev: &'static str, fields: Value) {
+    let sink = SINK.read().unwrap().clone();
+    if let Some(sink) = sink {
+        sink(ev, fields);
+    }
+}
+
+pub(crate) fn enabled() -> bool {
+    SINK.read().unwrap().is_some()
+}
+
+/// A schedule gate for async code. Immediately ready without a controller.
+pub(crate) async fn point(name: &'static str, fields: Value) {
+    let gate = GATE.read().unwrap().clone();
+    if let Some(gate) = gate {
+        if let Some(fut) = gate(name, &fields) {
+            fut.await;
+        }
+    }
+}
+
+/// A schedule gate that blocks the calling OS thread (multi-thread runtime scenarios).
+pub(crate) fn block_point(name: &'static str, fields: Value) {
+    let gate = BLOCK_GATE.read().unwrap().clone();
+    if let Some(gate) = gate {
+        gate(name, &fields);
+    }
+}
+
+pub(crate) fn socket_for(addr: std::net::SocketAddr) -> Option<Arc<dyn quinn::AsyncUdpSocket>> {
+    let factory = SOCKET_FACTORY.read().unwrap().clone();
+    factory.map(|f| f(addr))
+}
+
+pub(crate) fn jitter(default: std::time::Duration) -> std::time::Duration {
+    match *JITTER_MS.read().unwrap() {
+        Some(ms) => std::time::Duration::from_millis(ms),
+        None => default,
+    }
+}
+
+/// Milliseconds of `instant` since the harness' epoch (0 without one).
+pub(crate) fn ms(instant: std::time::Instant) -> u64 {
+    match *EPOCH.read().unwrap() {
+        Some(epoch) => instant.saturating_duration_since(epoch).as_millis() as u64,
+        None => 0,
+    }
+}
+
+pub(crate) fn pid(peer_id: &PeerId) -> String {
+    hex::encode(peer_id.0)
+}
+
+pub(crate) fn origin(origin: ConnectionOrigin) -> &'static str {
+    match origin {
+        ConnectionOrigin::Inbound => "in",
+        ConnectionOrigin::Outbound => "out",
+    }
+}
+
+pub(crate) fn reason(reason: &DisconnectReason) -> String {
+    format!("{reason:?}")
+}
+
+/// Identifier shared by both ends of one QUIC connection (TLS exporter).
+pub(crate) fn global_connection_id(connection: &quinn::Connection) -> u64 {
+    let mut out = [0u8; 8];
+    match connection.export_keying_material(&mut out, b"anemo-verif", b"") {
+        Ok(()) => u64::from_be_bytes(out) >> 12, // fits a JSON/TLC-friendly 52 bits
+        Err(_) => 0,
+    }
+}
+
+/// Emits `ev` when dropped unless disarmed: observes task cancellation / future abandonment.
+pub(crate) struct DropGuard {
+    ev: &'static str,
+    fields: Option<Value>,
+}
+
+impl DropGuard {
+    pub(crate) fn new(ev: &'static str, fields: Value) -> Self {
+        Self {
+            ev,
+            fields: Some(fields),
+        }
+    }
+
+    pub(crate) fn set(&mut self, key: &str, value: Value) {
+        if let Some(Value::Object(map)) = self.fields.as_mut() {
+            map.insert(key.to_owned(), value);
+        }
+    }
+
+    pub(crate) fn disarm(&mut self) {
+        self.fields = None;
+    }
+}
+
+impl Drop for DropGuard {
+    fn drop(&mut self) {
+        if let Some(fields) = self.fields.take() {
+            emit(self.ev, fields);
+        }
+    }
+}
+
+//
+// Direct-drive wrappers
+//
+
+pub mod direct {
+    use crate::{
+        config::EndpointConfig,
+        connection::Connection,
+        crypto::{CertVerifier, ExpectedCertVerifier},
+        network::verif_exports as net,
+        types::{DisconnectReason, PeerEvent},
+        Config, ConnectionOrigin, PeerId, Request, Response, Result,
+    };
+    use bytes::Bytes;
+    use rustls::{
+        client::danger::ServerCertVerifier,
+        pki_types::{CertificateDer, ServerName, UnixTime},
+        server::danger::ClientCertVerifier,
+    };
+    use std::time::Duration;
+    use tokio::io::{AsyncRead, AsyncWrite};
+    use tokio_util::codec::{FramedRead, FramedWrite};
+
+    /// `CertVerifier::verify_server_cert` (optionally through `ExpectedCertVerifier`).
+    pub fn verify_server_cert(
+        server_names: Vec<String>,
+        expected: Option<PeerId>,
+        end_entity: &[u8],
+        intermediates: &[Vec<u8>],
+        dialled_name: &str,
+        now_unix_secs: u64,
+    ) -> std::result::Result<(), String> {
+        let verifier = CertVerifier { server_names };
+        let ee = CertificateDer::from(end_entity.to_vec());
+        let inter: Vec<CertificateDer> = intermediates
+            .iter()
+            .map(|c| CertificateDer::from(c.clone()))
+            .collect();
+        let name = ServerName::try_from(dialled_name.to_owned()).map_err(|e| e.to_string())?;
+        let now = UnixTime::since_unix_epoch(Duration::from_secs(now_unix_secs));
+        let result = match expected {
+            Some(peer_id) => {
+                ExpectedCertVerifier(verifier, peer_id).verify_server_cert(&ee, &inter, &name, &[], now)
+            }
+            None => verifier.verify_server_cert(&ee, &inter, &name, &[], now),
+        };
+        result.map(|_| ()).map_err(|e| format!("{e:?}"))
+    }
+
+    /// `CertVerifier::verify_client_cert`.
+    pub fn verify_client_cert(
+        server_names: Vec<String>,
+        end_entity: &[u8],
+        intermediates: &[Vec<u8>],
+        now_unix_secs: u64,
+    ) -> std::result::Result<(), String> {
+        let verifier = CertVerifier { server_names };
+        let ee = CertificateDer::from(end_entity.to_vec());
+        let inter: Vec<CertificateDer> = intermediates
+            .iter()
+            .map(|c| CertificateDer::from(c.clone()))
+            .collect();
+        let now = UnixTime::since_unix_epoch(Duration::from_secs(now_unix_secs));
+        verifier
+            .verify_client_cert(&ee, &inter, now)
+            .map(|_| ())
+            .map_err(|e| format!("{e:?}"))
+    }
+
+    /// The signature schemes the verifiers offer, and whether client auth is mandatory.
+    pub fn verifier_policy() -> (Vec<String>, bool, bool) {
+        let verifier = CertVerifier {
+            server_names: vec![],
+        };
+        let schemes = ClientCertVerifier::supported_verify_schemes(&verifier)
+            .into_iter()
+            .map(|s| format!("{s:?}"))
+            .collect();
+        (
+            schemes,
+            verifier.offer_client_auth(),
+            verifier.client_auth_mandatory(),
+        )
+    }
+
+    pub fn peer_id_from_certificate(cert: &[u8]) -> std::result::Result<PeerId, String> {
+        crate::crypto::peer_id_from_certificate(&CertificateDer::from(cert.to_vec()))
+            .map_err(|e| format!("{e:?}"))
+    }
+
+    /// The certificate and names an endpoint built from these parameters would use.
+    pub fn endpoint_identity(
+        private_key: [u8; 32],
+        server_name: &str,
+        alternate: Option<&str>,
+    ) -> Result<(PeerId, Vec<u8>, String)> {
+        let config = EndpointConfig::builder()
+            .server_name(server_name)
+            .alternate_server_name(alternate)
+            .private_key(private_key)
+            .build()?;
+        Ok((
+            config.peer_id(),
+            config.verif_client_certificate(),
+            config.server_name().to_owned(),
+        ))
+    }
+
+    pub fn tie_break(
+        own: &PeerId,
+        remote: &PeerId,
+        existing: ConnectionOrigin,
+        new: ConnectionOrigin,
+    ) -> bool {
+        net::tie_break(own, remote, existing, new)
+    }
+
+    pub async fn write_request<T: AsyncWrite + Unpin>(
+        config: &Config,
+        io: T,
+        request: Request<Bytes>,
+    ) -> Result<T> {
+        let mut framed = FramedWrite::new(io, net::frame_codec(config));
+        net::write_request(&mut framed, request).await?;
+        Ok(framed.into_inner())
+    }
+
+    pub async fn write_response<T: AsyncWrite + Unpin>(
+        config: &Config,
+        io: T,
+        response: Response<Bytes>,
+    ) -> Result<T> {
+        let mut framed = FramedWrite::new(io, net::frame_codec(config));
+        net::write_response(&mut framed, response).await?;
+        Ok(framed.into_inner())
+    }
+
+    pub async fn read_request<T: AsyncRead + Unpin>(
+        config: &Config,
+        io: T,
+    ) -> Result<Request<Bytes>> {
+        let mut framed = FramedRead::new(io, net::frame_codec(config));
+        net::read_request(&mut framed).await
+    }
+
+    pub async fn read_response<T: AsyncRead + Unpin>(
+        config: &Config,
+        io: T,
+    ) -> Result<Response<Bytes>> {
+        let mut framed = FramedRead::new(io, net::frame_codec(config));
+        net::read_response(&mut framed).await
+    }
+
+    pub async fn read_version_frame<T: AsyncRead + Unpin>(io: &mut T) -> Result<u16> {
+        net::read_version_frame(io).await.map(|v| v.to_u16())
+    }
+
+    pub async fn write_version_frame<T: AsyncWrite + Unpin>(io: &mut T) -> Result<()> {
+        net::write_version_frame(io, crate::types::Version::V1).await
+    }
+
+    /// The real `ActivePeers`, driven directly with real QUIC connections.
+    #[derive(Clone)]
+    pub struct DirectActivePeers(net::ActivePeers);
+
+    impl DirectActivePeers {
+        pub fn new(channel_size: usize) -> Self {
+            Self(net::ActivePeers::new(channel_size))
+        }
+
+        pub fn verif_id(&self) -> u64 {
+            self.0.verif_id()
+        }
+
+        /// `ActivePeers::add`; returns whether the new connection was kept.
+        pub fn add(
+            &self,
+            own: &PeerId,
+            connection: quinn::Connection,
+            origin: ConnectionOrigin,
+        ) -> Result<bool> {
+            let connection = Connection::new(connection, origin)?;
+            Ok(net::active_peers_add(&self.0, own, connection).is_some())
+        }
+
+        pub fn remove(&self, peer: &PeerId, reason: DisconnectReason) {
+            self.0.remove(peer, reason)
+        }
+
+        pub fn remove_with_stable_id(
+            &self,
+            peer: PeerId,
+            stable_id: usize,
+            reason: DisconnectReason,
+        ) {
+            self.0.remove_with_stable_id(peer, stable_id, reason)
+        }
+
+        pub fn subscribe(&self) -> (tokio::sync::broadcast::Receiver<PeerEvent>, Vec<PeerId>) {
+            self.0.subscribe()
+        }
+
+        pub fn peers(&self) -> Vec<PeerId> {
+            self.0.peers()
+        }
+
+        /// `(stable id, origin)` of the connection currently stored for `peer`.
+        pub fn stored(&self, peer: &PeerId) -> Option<(usize, ConnectionOrigin)> {
+            self.0.get(peer).map(|c| (c.stable_id(), c.origin()))
+        }
+    }
+
+    type BoxedInbound =
+        tower::util::BoxCloneService<Request<Bytes>, Response<Bytes>, std::convert::Infallible>;
+    type BoxedOutbound = tower::util::BoxService<Request<Bytes>, Response<Bytes>, crate::Error>;
+
+    /// Wrap `service` in the inbound timeout layer exactly as the network installs it.
+    pub fn with_inbound_timeout(
+        default_timeout: Option<Duration>,
+        service: BoxedInbound,
+    ) -> BoxedInbound {
+        use tower::{Layer, ServiceExt};
+        crate::middleware::timeout::inbound::TimeoutLayer::new(default_timeout)
+            .layer(service)
+            .boxed_clone()
+    }
+
+    /// Wrap `service` in the outbound timeout layer exactly as the network installs it.
+    pub fn with_outbound_timeout(
+        default_timeout: Option<Duration>,
+        service: BoxedOutbound,
+    ) -> BoxedOutbound {
+        use tower::{Layer, ServiceExt};
+        crate::middleware::timeout::outbound::TimeoutLayer::new(default_timeout)
+            .layer(service)
+            .boxed()
+    }
+}
